@@ -118,8 +118,8 @@ pub enum Content {
     Sem,
     Mis,
     Unr,
-    /// valid, but asks for an X11 repeat rate: on Linux `do_live_reload` runs `xset` AFTER it has
-    /// replaced the fields, and fails if `xset` cannot be spawned
+    /// valid, but asks for an X11 repeat rate: on Linux `do_live_reload` runs `xset`, which cannot be
+    /// spawned here (PATH is emptied): the reload has to fail without changing anything
     OkX11(SCfg),
 }
 
